@@ -1206,12 +1206,47 @@ func fdsDirect(seed uint64, tier string, args []string, w *bufio.Writer) {
 		})
 	}
 
+	// 6b. the same with descriptor numbers >= 4096: the IO registry keeps those in a map, not in its static table
+	if held := fdsOccupy(4200); held != nil {
+		for _, kind := range []string{"conn-read", "conn-write", "conn-both", "adapter-both", "packet-read", "listener-accept"} {
+			kind := kind
+			d.trial("gc-high."+kind, "as gc."+kind+" with a descriptor number above 4096", func() {
+				fdsGcTrial(d, ioc, kind, r)
+			})
+		}
+		for _, fd := range held {
+			_ = syscall.Close(fd)
+		}
+	}
+
 	// NewMirroredBuffer with the re-mapping failing (mapping-count exhaustion, in a child process)
 	fdsMirroredRemapTrial(d)
 
 	st := map[string]any{"fds_trials": d.counts, "fds_failures": d.fails}
 	js, _ := json.Marshal(st)
 	fmt.Fprintf(w, "DIRECT-STAT %s\n", js)
+}
+
+// fdsOccupy opens descriptors until the lowest free number is above `upTo` (nil if the limit does not allow it).
+func fdsOccupy(upTo int) []int {
+	var lim syscall.Rlimit
+	if err := syscall.Getrlimit(syscall.RLIMIT_NOFILE, &lim); err != nil || lim.Cur < uint64(upTo+500) {
+		return nil
+	}
+	var held []int
+	for {
+		fd, err := syscall.Open("/dev/null", syscall.O_RDONLY|syscall.O_CLOEXEC, 0)
+		if err != nil {
+			for _, h := range held {
+				_ = syscall.Close(h)
+			}
+			return nil
+		}
+		held = append(held, fd)
+		if fd > upTo {
+			return held
+		}
+	}
 }
 
 type fdsSentinel struct{ n int }
